@@ -901,11 +901,11 @@ end Trans
 open Trans in
 /-- one transition case; `i` selects the family so that every family and count transition is hit on every run -/
 def genTransition (i : Nat) : Gen (String × V × String × String) := do
-  let fam := i % 8
-  let op := i / 24   -- cycles through the removal operators per family and count transition
+  let fam := i % 12
+  let op := i / 36   -- cycles through the removal operators per family and count transition
   if fam < 4 then
     -- dictionaries: the key `k` goes from `n` to `n - 1` values (n = 3, 2, 1), next to 0..2 other keys
-    let n := 3 - (i / 8) % 3
+    let n := 3 - (i / 12) % 3
     let ints ← chance 1 3
     let pool ← shuffle (if ints then intPool else atomPool)
     let k := pool.getD 0 ("1", .num 1)
@@ -941,7 +941,7 @@ def genTransition (i : Nat) : Gen (String × V × String × String) := do
   else if fam < 6 then
     -- relations: rows and columns go away
     let cols ← pick [["a"], ["a", "b"], ["a", "b", "c"]]
-    let nrows := 1 + (i / 8) % 3
+    let nrows := 1 + (i / 12) % 3
     let vals ← shuffle atomPool
     let rows : List (List Atom) := (List.range nrows).map (fun (r : Nat) =>
       (List.range cols.length).map (fun (c : Nat) => vals.getD ((r * 2 + c) % vals.length) ("1", .num 1)))
@@ -975,7 +975,7 @@ def genTransition (i : Nat) : Gen (String × V × String × String) := do
       let shp ← shuffle proj
       let litp := "{|a| " ++ ", ".intercalate (shp.map (fun r => "(" ++ ", ".intercalate (r.map (·.1)) ++ ")")) ++ "}"
       pure (src, denR ["a"] proj, litp, s!"rel/cols{cols.length}to1")
-  else
+  else if fam < 8 then
     -- union sets: two buckets, all members of one of them go away
     let bucketsAll : List (List Atom × String) :=
       [([("1", .num 1), ("{}", .set []), ("'a'", (Lit.str 0 [97]).den)], "{1, {}, 'a'}"),
@@ -997,6 +997,117 @@ def genTransition (i : Nat) : Gen (String × V × String × String) := do
       | 1 => pure ("(" ++ u ++ " &~ {" ++ ", ".intercalate (drop.1.map (·.1)) ++ "})")
       | _ => pure ("((" ++ keep.2 ++ " | " ++ drop.2 ++ ") &~ " ++ drop.2 ++ ")")
     pure (src, V.mkSet (keep.1.map (·.2)), keep.2, "union/2to1")
+  else if fam < 10 then
+    -- joins and compositions that end in a sugared heading `{@, @char|@item|@value|@byte}`: the value column from the
+    -- left operand and from the right operand, every operator, compared with the string/array/dict/bytes literal
+    let j := (i / 12) * 2 + (fam - 8)
+    let name := ["@char", "@item", "@value", "@byte"].getD (j % 4) "@item"
+    let variant := (j / 4) % 8
+    let offPre (o : Int) : String := if o == 0 then "" else numSrc o ++ "\\"
+    let len := 1 + (← rand 3)
+    -- rows `(at, value)` with their denotations, and the literal
+    let (rows, lit, extraAt) : List (Atom × Atom) × String × String ← (do
+      if name == "@char" then
+        let off ← pick [(0 : Int), 0, 2, -1]
+        let cs ← (List.range len).mapM (fun _ => pick [(97 : Nat), 98, 99, 122])
+        let rows := (cs.zipIdx).map (fun p => ((numSrc (off + (p.2 : Int)), V.num (off + (p.2 : Int))),
+                                               (toString p.1, V.num (p.1 : Int))))
+        pure (rows, offPre off ++ strLit (cs.map (fun c => Int.ofNat c)), "9999")
+      else if name == "@byte" then
+        let off ← pick [(0 : Int), 0, 3]
+        let bs ← (List.range len).mapM (fun _ => pick [(65 : Nat), 66, 0, 255])
+        let rows := (bs.zipIdx).map (fun p => ((numSrc (off + (p.2 : Int)), V.num (off + (p.2 : Int))),
+                                               (toString p.1, V.num (p.1 : Int))))
+        -- a byte array cannot have gaps (KF-bytes-holes): the extra row sits right behind the last byte
+        pure (rows, offPre off ++ "<<" ++ ", ".intercalate (bs.map toString) ++ ">>", numSrc (off + (len : Int)))
+      else if name == "@item" then
+        let off ← pick [(0 : Int), 0, 2, -2]
+        let its ← shuffle atomPool
+        let hole := len == 3 && (← chance 1 2)
+        let cells : List (Option Atom) := (List.range len).map (fun (k : Nat) =>
+          if hole && k == 1 then none else some (its.getD k ("1", .num 1)))
+        let rows := (cells.zipIdx).filterMap (fun p => p.1.map (fun a =>
+          ((numSrc (off + (p.2 : Int)), V.num (off + (p.2 : Int))), a)))
+        pure (rows, offPre off ++ "[" ++ ", ".intercalate (cells.map (fun c => (c.map (·.1)).getD "")) ++ "]", "9999")
+      else
+        let ks ← shuffle atomPool
+        let vs ← shuffle atomPool
+        let rows := (List.range len).map (fun (k : Nat) => (ks.getD k ("1", .num 1), vs.getD k ("2", .num 2)))
+        pure (rows, sugar rows, "9999"))
+    let v : V := V.mkSet (rows.map (fun r => V.mkTup [("@", r.1.2), (name, r.2.2)]))
+    let filler := if name == "@char" then "122" else if name == "@byte" then "9" else "77"
+    let xs : List String := (List.range rows.length).map (fun (k : Nat) => toString (10 + k))
+    let rx := rows.zip xs
+    let rel (cols : String) (rs : List String) : Gen String := do
+      pure ("{|" ++ cols ++ "| " ++ ", ".intercalate (← shuffle rs) ++ "}")
+    let src ← match variant with
+      | 0 => do pure ((← rel (name ++ ", x") (rx.map (fun p => "(" ++ p.1.2.1 ++ ", " ++ p.2 ++ ")"))) ++ " <-> " ++
+                      (← rel "@, x" (rx.map (fun p => "(" ++ p.1.1.1 ++ ", " ++ p.2 ++ ")"))))
+      | 1 => do pure ((← rel "@, x" (rx.map (fun p => "(" ++ p.1.1.1 ++ ", " ++ p.2 ++ ")"))) ++ " <-> " ++
+                      (← rel (name ++ ", x") (rx.map (fun p => "(" ++ p.1.2.1 ++ ", " ++ p.2 ++ ")"))))
+      | 2 => do
+        if rows.length == 1 then
+          pure ((← rel name (rows.map (fun r => "(" ++ r.2.1 ++ ")"))) ++ " <&> " ++ (← rel "@" (rows.map (fun r => "(" ++ r.1.1 ++ ")"))))
+        else
+          pure ((← rel ("x, " ++ name) (rx.map (fun p => "(" ++ p.2 ++ ", " ++ p.1.2.1 ++ ")"))) ++ " <-> " ++
+                (← rel "x, @" (rx.map (fun p => "(" ++ p.2 ++ ", " ++ p.1.1.1 ++ ")"))))
+      | 3 => do
+        if rows.length == 1 then
+          pure ((← rel "@" (rows.map (fun r => "(" ++ r.1.1 ++ ")"))) ++ " <&> " ++ (← rel name (rows.map (fun r => "(" ++ r.2.1 ++ ")"))))
+        else
+          pure ((← rel "x, @" (rx.map (fun p => "(" ++ p.2 ++ ", " ++ p.1.1.1 ++ ")"))) ++ " <-> " ++
+                (← rel ("x, " ++ name) (rx.map (fun p => "(" ++ p.2 ++ ", " ++ p.1.2.1 ++ ")"))))
+      | 4 => do pure ((← rel "@" (rows.map (fun r => "(" ++ r.1.1 ++ ")"))) ++ " -&> " ++
+                      (← rel ("@, " ++ name) (("(" ++ extraAt ++ ", " ++ filler ++ ")") :: rows.map (fun r => "(" ++ r.1.1 ++ ", " ++ r.2.1 ++ ")"))))
+      | 5 => do pure ((← rel (name ++ ", @") (("(" ++ filler ++ ", " ++ extraAt ++ ")") :: rows.map (fun r => "(" ++ r.2.1 ++ ", " ++ r.1.1 ++ ")"))) ++
+                      " <&- " ++ (← rel "@" (rows.map (fun r => "(" ++ r.1.1 ++ ")"))))
+      | 6 => do pure ((← rel "x" (xs.map (fun x => "(" ++ x ++ ")"))) ++ " --> " ++
+                      (← rel ("x, @, " ++ name) (("(99, " ++ extraAt ++ ", " ++ filler ++ ")") ::
+                        rx.map (fun p => "(" ++ p.2 ++ ", " ++ p.1.1.1 ++ ", " ++ p.1.2.1 ++ ")"))))
+      | _ => do pure ((← rel (name ++ ", x, @") (("(" ++ filler ++ ", 99, " ++ extraAt ++ ")") ::
+                        rx.map (fun p => "(" ++ p.1.2.1 ++ ", " ++ p.2 ++ ", " ++ p.1.1.1 ++ ")"))) ++ " <-- " ++
+                      (← rel "x" (xs.map (fun x => "(" ++ x ++ ")"))))
+    pure ("(" ++ src ++ ")", v, lit, "join/" ++ name ++ "/" ++ toString variant)
+  else
+    -- shrinking to a special canonical form: `true`, `false`, a one-member string / array / byte array / dictionary /
+    -- relation / generic set, from a larger generic or union set by `&~ & ~~ where without =>`
+    let q := (i / 12) * 2 + (fam - 10)
+    let targets : List (String × List Atom) :=
+      [("true", [("()", .tup [])]), ("false", []),
+       ("'a'", [("(@: 0, @char: 97)", V.mkTup [("@", .num 0), ("@char", .num 97)])]),
+       ("2\\'b'", [("(@: 2, @char: 98)", V.mkTup [("@", .num 2), ("@char", .num 98)])]),
+       ("[{}]", [("(@: 0, @item: {})", V.mkTup [("@", .num 0), ("@item", .set [])])]),
+       ("<<65>>", [("(@: 0, @byte: 65)", V.mkTup [("@", .num 0), ("@byte", .num 65)])]),
+       ("{'k': 2}", [("(@: 'k', @value: 2)", V.mkTup [("@", (Lit.str 0 [107]).den), ("@value", .num 2)])]),
+       ("{|a| (1)}", [("(a: 1)", V.mkTup [("a", .num 1)])]),
+       ("{5}", [("5", .num 5)])]
+    let sameExtras : List (List String) :=
+      [["1", "{2}"], ["1", "{}", "()"], ["(@: 1, @char: 98)", "(@: 2, @char: 99)"], ["(@: 3, @char: 99)"],
+       ["(@: 1, @item: 7)"], ["(@: 1, @byte: 66)"], ["(@: 1, @value: 2)", "(@: 'k', @value: 3)"],
+       ["(a: 2)", "(a: 'q')"], ["6", "()"]]
+    let (ti, opi, same) ← (do
+      if q < 24 then pure (q % 2, (q / 2) % 6, (q / 12) % 2 == 0)
+      else pure (2 + (← rand 7), ← rand 6, ← chance 1 2))
+    let tgt := targets.getD ti ("true", [("()", .tup [])])
+    let generic := ti == 0 || ti == 1 || ti == 8
+    let extras : List String :=
+      if same then sameExtras.getD ti ["1"]
+      else if generic then ["(zz: 1)", "(@: 0, @char: 97)"] else ["1", "(zz: 1)"]
+    let ms := tgt.2.map (·.1)
+    let setOf (l : List String) : Gen String := do pure ("{" ++ ", ".intercalate (← shuffle l) ++ "}")
+    let sup ← setOf (ms ++ extras)
+    let src ← match opi with
+      | 0 => do pure ("(" ++ sup ++ " &~ " ++ (← setOf extras) ++ ")")
+      | 1 => do pure ("(" ++ sup ++ " & " ++ (← setOf (ms ++ ["424242", "(qq: 0)"])) ++ ")")
+      | 2 => do pure ("(" ++ sup ++ " ~~ " ++ (← setOf extras) ++ ")")
+      | 3 => pure ("(" ++ sup ++ " where " ++
+            (if ms.isEmpty then ". = 424242" else " || ".intercalate (ms.map (fun m => ". = " ++ m))) ++ ")")
+      | 4 => do pure ((← shuffle extras).foldl (fun acc e => "(" ++ acc ++ " without " ++ e ++ ")") sup)
+      | _ => do
+        match ms with
+        | [m] => pure ("(" ++ (← setOf (if same && generic then ["1", "2"] else extras)) ++ " => " ++ m ++ ")")
+        | _ => pure ("((" ++ sup ++ " &~ " ++ sup ++ ") => 1)")
+    pure (src, V.mkSet (tgt.2.map (·.2)), tgt.1, "shrink/" ++ tgt.1 ++ "/" ++ toString opi)
 
 /-- witnesses of the repaired defects and minimised past failures; always run first -/
 def corpus : List Case :=
@@ -1070,7 +1181,7 @@ def corpus : List Case :=
 def gen (seed n : Nat) (thorough : Bool) : List Case := Id.run do
   let mut out := corpus.reverse
   -- transitions: every family and count transition on every run
-  for i in [0:(if thorough then 960 else 144)] do
+  for i in [0:(if thorough then 1920 else 240)] do
     let ((a, v, b, stratum), _) := (genTransition i).run (seedOf seed (900000 + i))
     let (ctx, _) := (genCtx v).run (seedOf seed (950000 + i))
     let cs := mkPair s!"C02-t{i}" ("trans/" ++ stratum) v v a b ctx []
